@@ -183,6 +183,36 @@ func (c *Ctl) Drain() {
 	}
 }
 
+// Choose is an environment decision with n alternatives taken by code running
+// inside the bubble (e.g. a math/rand draw redirected through vrand.Decider).
+// Alternative 0 is the default; others cost one deviation. Calls must happen in
+// a deterministic order (one goroutine active between two quiescent points).
+func (c *Ctl) Choose(n int, label string) int {
+	if n <= 1 {
+		return 0
+	}
+	c.mu.Lock()
+	defer c.mu.Unlock()
+	if len(c.x.Points) >= c.maxStep {
+		c.x.Capped = true
+		return 0
+	}
+	i := len(c.x.Points)
+	choice := 0
+	if i < len(c.prefix) {
+		choice = c.prefix[i]
+		if choice >= n {
+			c.x.Diverged = fmt.Sprintf("point %d: prefix choice %d but only %d alternatives (%s)", i, choice, n, label)
+			choice = 0
+		}
+	}
+	c.x.Points = append(c.x.Points, vrt.PointRec{NEnabled: n, Chosen: choice, Env: true, Label: label})
+	if choice != 0 {
+		c.Trace = append(c.Trace, fmt.Sprintf("%s=%d", label, choice))
+	}
+	return choice
+}
+
 // ReleaseAll releases every parked seam (teardown).
 func (c *Ctl) ReleaseAll() {
 	c.mu.Lock()
